@@ -397,4 +397,102 @@ Section RosScratch.
     cbv zeta in LS. destruct LS as (L1 & L2 & L3 & L4 & L5).
     cbn [r_state r_final_time r_stats r_trace r_s]. rewrite L1, L2, L3, L4, L5. repeat split; reflexivity.
   Qed.
+
+  (* ---------- C06: the time reported is the sum, in order, of the step sizes of the accepted attempts ---------- *)
+  Definition time_step_of (t : T) (e : event) : T :=
+    match e with EvAttempt H _ true _ _ _ => nadd N t H | _ => t end.
+  Definition time_from (t : T) (tr : list event) : T := fold_left time_step_of tr t.
+  Definition quiet (e : event) : Prop := match e with EvAttempt _ _ _ _ _ _ => False | _ => True end.
+
+  Lemma time_from_app t a b : time_from t (a ++ b) = time_from (time_from t a) b.
+  Proof. unfold time_from. apply fold_left_app. Qed.
+  Lemma time_from_quiet t tr : Forall quiet tr -> time_from t tr = t.
+  Proof.
+    revert t; induction tr as [|e tr IH]; intros t Hq; [reflexivity|].
+    inversion Hq as [|? ? He Hq']; subst. cbn [time_from fold_left]. fold (time_from (time_step_of t e) tr).
+    rewrite IH by exact Hq'. destruct e; cbn in He |- *; try reflexivity; contradiction.
+  Qed.
+
+  Lemma stage_quiet H s lm lf k : Forall quiet (snd (fst (stage1 H s lm lf k))).
+  Proof.
+    rewrite stage_step_split. unfold tail_part, first_part. cbv zeta.
+    destruct (k =? 0); [|destruct (nth k (p_newf p) false)]; cbn [fst snd app]; repeat constructor.
+  Qed.
+
+  Lemma stages_quiet H s : Forall quiet (snd (fst (stages H s))).
+  Proof.
+    unfold stages_loop.
+    assert (G : forall l (acc : rstate * list event * nat), Forall quiet (snd (fst acc)) ->
+      Forall quiet (snd (fst (fold_left (fun (acc : rstate * list event * nat) stage =>
+                 let '(s, ev, nf) := acc in
+                 let '(s', ev', nf') := stage1 H s (sJac s) (sLU s) stage in (s', ev ++ ev', nf + nf')) l acc)))).
+    { induction l as [|k l IH]; intros [[s0 ev0] nf0] Hq; cbn [fold_left]; [exact Hq|].
+      pose proof (stage_quiet H s0 (sJac s0) (sLU s0) k) as Hs.
+      destruct (stage1 H s0 (sJac s0) (sLU s0) k) as [[s1 ev1] nf1]. cbn [fst snd] in *.
+      apply IH. cbn [fst snd]. apply Forall_app. split; assumption. }
+    apply G. constructor.
+  Qed.
+
+  Lemma iter_time time_step h_max l tr :
+    l_t l = time_from (n0 N) tr ->
+    match iter time_step h_max l with
+    | inr (l', ev) => l_t l' = time_from (n0 N) (tr ++ ev)
+    | inl (st, t, sts, s, ev) => t = time_from (n0 N) (tr ++ ev)
+    end.
+  Proof.
+    intros HI. rewrite ros_iter_split.
+    assert (Htop : match top_part time_step l with
+                   | inl _ => True
+                   | inr (l1, ev0) => l_t l1 = l_t l /\ Forall quiet ev0
+                   end).
+    { unfold top_part. destruct (l_fresh l); [|split; [reflexivity | constructor]].
+      destruct (negb (leb (nadd N (nsub N (l_t l) time_step) (p_round_off p)) (n0 N))); [exact I|].
+      destruct (p_max_steps p <? number_of_steps (l_stats l)); [exact I|].
+      destruct (absorbed (l_t l) (l_H l) || leb (l_H l) (p_round_off p)); [exact I|].
+      cbv zeta. cbn [l_t]. split; [reflexivity | repeat constructor]. }
+    destruct (top_part time_step l) as [st | [l1 ev0]].
+    - rewrite app_nil_r. exact HI.
+    - destruct Htop as [Et Hq0]. unfold attempt_part. cbv zeta.
+      pose proof (stages_quiet (l_H l1)
+                    (mkRState V M F (sY (l_s l1))
+                       (if in_place then factor_ip (add_diag (if in_place then ndiv N (n1 N) (nmul N (l_H l1) (p_gamma0 p))
+                                                              else nsub N (ndiv N (n1 N) (nmul N (l_H l1) (p_gamma0 p))) (l_last_alpha l1)) (sJac (l_s l1)))
+                        else add_diag (if in_place then ndiv N (n1 N) (nmul N (l_H l1) (p_gamma0 p))
+                                       else nsub N (ndiv N (n1 N) (nmul N (l_H l1) (p_gamma0 p))) (l_last_alpha l1)) (sJac (l_s l1)))
+                       (if in_place then sLU (l_s l1)
+                        else factor_sep (add_diag (if in_place then ndiv N (n1 N) (nmul N (l_H l1) (p_gamma0 p))
+                                                   else nsub N (ndiv N (n1 N) (nmul N (l_H l1) (p_gamma0 p))) (l_last_alpha l1)) (sJac (l_s l1))) (sLU (l_s l1)))
+                       (sYnew (l_s l1)) (sInitF (l_s l1)) (sK (l_s l1)) (sYerr (l_s l1)))) as Hqs.
+      match goal with |- context [stages ?H ?s1] => destruct (stages H s1) as [[s2 evs] nf] end.
+      cbn [fst snd] in Hqs.
+      assert (Hq : forall t0 l0, Forall quiet l0 -> fold_left time_step_of l0 t0 = t0).
+      { intros t0 l0 Hl0. exact (time_from_quiet t0 l0 Hl0). }
+      unfold time_from in *.
+      repeat match goal with |- context [if ?b then _ else _] =>
+               match b with in_place => fail 1 | _ => destruct b end end;
+        cbn [l_t]; rewrite ?fold_left_app; rewrite <- HI; rewrite (Hq _ ev0 Hq0);
+        cbn [fold_left time_step_of]; rewrite (Hq _ evs Hqs); cbn [fold_left time_step_of];
+        try (destruct in_place; cbn [fold_left time_step_of]); rewrite ?Et; reflexivity.
+  Qed.
+
+  Lemma loop_time fuel time_step h_max : forall l tr,
+    l_t l = time_from (n0 N) tr ->
+    r_final_time (loop fuel time_step h_max l tr) = time_from (n0 N) (r_trace (loop fuel time_step h_max l tr)).
+  Proof.
+    induction fuel as [|fuel IH]; intros l tr HI; cbn [ros_loop].
+    - cbn [r_final_time r_trace]. exact HI.
+    - pose proof (iter_time time_step h_max l tr HI) as Hs.
+      destruct (iter time_step h_max l) as [[[[[st t] sts] s] ev]|[l1 ev]].
+      + cbn [r_final_time r_trace]. exact Hs.
+      + apply IH. exact Hs.
+  Qed.
+
+  (* final_time_ is the sum, in the order they were taken, of the step sizes of the accepted attempts - whatever the
+     accept / reject history, the policies and the way the Solve ended *)
+  Theorem ros_final_time_is_sum_of_accepted_steps fuel time_step (s : rstate) :
+    let r := solve fuel time_step s in
+    r_final_time r = time_from (n0 N) (r_trace r).
+  Proof.
+    unfold ros_solve. cbv zeta. cbn [r_final_time r_trace]. apply loop_time. reflexivity.
+  Qed.
 End RosScratch.
